@@ -139,6 +139,15 @@ func goEqual(want, got reflect.Value, path string) string {
 		}
 		for _, k := range want.MapKeys() {
 			gv := got.MapIndex(k)
+			if !gv.IsValid() && k.Kind() == reflect.Interface {
+				// interface{} contents compare by value: int64(300) comes back as uint64(300) from CBE
+				for _, k2 := range got.MapKeys() {
+					if looseEqual(k, k2, "") == "" {
+						gv = got.MapIndex(k2)
+						break
+					}
+				}
+			}
 			if !gv.IsValid() {
 				return fmt.Sprintf("%s: key %v missing", path, k)
 			}
